@@ -295,6 +295,11 @@ fn snippet(rng: &mut Rng, focus: &str, m: &Mix, out: &mut Vec<Op>) {
                 out.push(Op::Write { src: holder, field: j as u16, val: Some(y), mode: rng.below(2) as u8 });
                 out.push(Op::Drop { root: y });
             }
+            // a mutator that goes away between the write and the GC must leave its remembered
+            // set behind (destroy_mutator flushes)
+            if focus == "C05" && rng.chance(1, 4) {
+                out.push(Op::Rebind { flush_first: rng.chance(1, 3) });
+            }
             out.push(Op::Gc { force: true, exhaustive: false });
             out.push(Op::Load { src: holder, field: rng.below(8) as u16, dst: l(1) });
         }
